@@ -22,8 +22,13 @@ OWN_TICKS = {1: [1.0, 2.0, 3.0], 2: [0.5, 0.75, 4.0, 9.0]}
 OWN_LABELS = {1: ["a", "b", "c"], 2: ["ü", "名前"]}
 
 
+COLNAMES = ["cA", "cB"]
+
+
 def target_data(t, rank, tok):
     base = float(10 * tok)
+    if rank == 0:         # data frame: rows of (cA, cB), both columns ascending
+        return np.array([[base, base + 100.0], [base + 1.0, base + 101.0], [base + 2.5, base + 102.5]])
     if rank == 1:
         return np.array([base, base + 1.0, base + 2.5])
     return np.array([[base, base + 1.0, base + 2.0], [base + 10.0, base + 11.0, base + 12.0]])
@@ -31,6 +36,8 @@ def target_data(t, rank, tok):
 
 def vector(rank, tok, idx):
     data = target_data(None, rank, tok)
+    if rank == 0:
+        return [float(x) for x in data[:, idx[0]]]
     sel = tuple(slice(None) if i == -1 else i for i in idx)
     return [float(x) for x in data[sel]]
 
@@ -47,10 +54,15 @@ def expected(state, ranks):
             vals = OWN_LABELS.get(v["tok"], [])
         else:
             vals = None
+        label = COLNAMES[d["label"] - 10] if d["label"] >= 10 else LABELS[d["label"]]
         out.append({"kind": d["k"], "linked": d["linked"], "values": vals, "unit": UNITS[d["unit"]],
-                    "label": LABELS[d["label"]], "index": list(d["idx"]) if d["linked"] else None})
-    tg = {t: {"data": target_data(t, ranks[t], r["data"]).tolist(), "unit": UNITS[r["unit"]], "label": LABELS[r["label"]]}
-          for t, r in state["targets"].items()}
+                    "label": label, "index": list(d["idx"]) if d["linked"] else None})
+    tg = {}
+    for t, r in state["targets"].items():
+        if ranks[t] == 0:
+            tg[t] = {"data": target_data(t, 0, r["data"]).tolist(), "unit": [UNITS[u] for u in r["unit"]], "label": None}
+        else:
+            tg[t] = {"data": target_data(t, ranks[t], r["data"]).tolist(), "unit": UNITS[r["unit"]], "label": LABELS[r["label"]]}
     return {"dims": out, "targets": tg}
 
 
@@ -66,7 +78,7 @@ def project_dim(dim):
     d = {"kind": kind, "linked": _safe(lambda: bool(dim.has_link))}
     if kind == "range":
         d["values"] = _safe(lambda: [float(x) for x in dim.ticks])
-        d["unit"] = _safe(lambda: dim.unit)
+        d["unit"] = _safe(lambda: dim.unit or None)          # a frame column without unit reads as ""
         d["label"] = _safe(lambda: dim.label)
     elif kind == "set":
         d["values"] = _safe(lambda: [x if isinstance(x, str) else float(x) for x in dim.labels])
@@ -78,13 +90,13 @@ def project_dim(dim):
         d["label"] = _safe(lambda: dim.label)
     if d["linked"] is True:
         lk = dim.dimension_link
-        d["index"] = _safe(lambda: [int(x) for x in lk.index])
+        d["index"] = _safe(lambda: [int(lk.index)] if isinstance(lk.index, (int, np.integer)) else [int(x) for x in lk.index])
         # the link object itself must agree with what the descriptor reports
         lv = _safe(lambda: [float(x) for x in lk.values])
         if lv != d["values"]:
             d["link_values_differ"] = lv
         if kind == "range":
-            if _safe(lambda: lk.unit) != d["unit"] or _safe(lambda: lk.label) != d["label"]:
+            if _safe(lambda: lk.unit or None) != d["unit"] or _safe(lambda: lk.label) != d["label"]:
                 d["link_attrs_differ"] = True
             # positions are converted through the linked ticks
             if isinstance(d["values"], list) and d["values"]:
@@ -100,9 +112,17 @@ def project(host, targets, dimhandles=None):
     dims = dimhandles if dimhandles is not None else _safe(lambda: list(host.dimensions))
     out = {"dims": [project_dim(d) for d in dims] if isinstance(dims, list) else dims, "targets": {}}
     for t, h in targets.items():
+        if type(h).__name__ == "DataFrame":
+            out["targets"][t] = {"data": _safe(lambda: [[float(r[c]) for c in COLNAMES] for r in h[:]]),
+                                 "unit": _safe(lambda: [u or None for u in h.units]), "label": None}
+            continue
         out["targets"][t] = {"data": _safe(lambda: np.asarray(h[:]).tolist()), "unit": _safe(lambda: h.unit),
                              "label": _safe(lambda: h.label)}
     return out
+
+
+def _fresh_targets(blk, ranks):
+    return {t: (blk.data_frames[t] if ranks[t] == 0 else blk.data_arrays[t]) for t in ranks}
 
 
 def diff(exp, got, path=""):
@@ -143,6 +163,13 @@ class Session:
         self.blk = self.nf.create_block("blk", "t")
         self.targets = {}
         for t in sorted(ranks):
+            if ranks[t] == 0:
+                from collections import OrderedDict
+                fr = self.blk.create_data_frame(t, "t", col_dict=OrderedDict((c, np.float64) for c in COLNAMES),
+                                                data=[tuple(r) for r in target_data(t, 0, 1)])
+                fr.units = [None, None]
+                self.targets[t] = fr
+                continue
             self.targets[t] = self.blk.create_data_array(t, "t", data=target_data(t, ranks[t], 1))
         self.host = self.blk.create_data_array("host", "t", data=np.zeros((3, 3)))
         self.host_b = self.blk.data_arrays["host"]
@@ -191,12 +218,17 @@ class Session:
                     d.unit = UNITS[act["v"]]
             elif n == "Link":
                 d = self.dim(act["i"])
-                d.link_data_array(self.target(act["t"]), list(act["idx"]))
+                if self.ranks[act["t"]] == 0:
+                    d.link_data_frame(self.target(act["t"]), act["idx"][0])
+                else:
+                    d.link_data_array(self.target(act["t"]), list(act["idx"]))
             elif n == "Unlink":
                 self.dim(act["i"]).remove_link()
             elif n == "WriteTarget":
                 t = self.target(act["t"])
-                if act["f"] == "data":
+                if act["f"] == "data" and self.ranks[act["t"]] == 0:
+                    t.write_rows([tuple(r) for r in target_data(act["t"], 0, act["v"])], [0, 1, 2])
+                elif act["f"] == "data":
                     t[:] = target_data(act["t"], self.ranks[act["t"]], act["v"])
                 elif act["f"] == "unit":
                     t.unit = UNITS[act["v"]]
@@ -214,6 +246,8 @@ class Session:
         return None
 
     def target(self, t):
+        if self.ranks[t] == 0:
+            return self.targets[t] if self.rnd.random() < 0.5 else self.blk.data_frames[t]
         return self.targets[t] if self.rnd.random() < 0.5 else self.blk.data_arrays[t]
 
     def close(self):
@@ -294,7 +328,7 @@ def replay_one(tx):
                                                "to": tx["to"], "seed": opts["seed"], "ranks": ranks}})
         exp_to = expected(tx["to"], ranks)
         views = [("host_A", project(sess.host, sess.targets)), ("host_B", project(sess.host_b, sess.targets)),
-                 ("fresh", project(sess.blk.data_arrays["host"], {t: sess.blk.data_arrays[t] for t in ranks}))]
+                 ("fresh", project(sess.blk.data_arrays["host"], _fresh_targets(sess.blk, ranks)))]
         if sess.kept and len(sess.kept) == len(exp_to["dims"]):
             views.append(("kept_descriptor_handles", project(sess.host, sess.targets, dimhandles=sess.kept)))
         for label, got in views:
@@ -306,7 +340,7 @@ def replay_one(tx):
             sess.nf.close()
             sess.nf = nixio.File.open(path, mode)
             blk = sess.nf.blocks["blk"]
-            d = diff(exp_to, project(blk.data_arrays["host"], {t: blk.data_arrays[t] for t in ranks}))
+            d = diff(exp_to, project(blk.data_arrays["host"], _fresh_targets(blk, ranks)))
             if d:
                 finding("reopen-" + label, d[0], {"path": d[0], "expected": d[1], "observed": d[2]})
                 return res
